@@ -29,3 +29,52 @@ Theorem C05_source_load_claims : forall parse_ident unmarshal_ok (d : string) (i
   end.
 Proof. exact src_load_claims_spec. Qed.
 Print Assumptions C05_source_load_claims.
+
+(* the four loaders with a version-1 form (v2/decoder_operator.go, decoder_account.go, decoder_user.go,
+   decoder_activation.go), translated on this run: a switch on the version loadClaims hands in.  Any version but 1 and 2 is
+   refused before the payload is looked at - whatever the payload holds and whatever json.Unmarshal, the stores into
+   the loader's own struct and Migrate are (they are unknown functions; the structs are fresh values of the loader's
+   own).  Version 1: the payload is unmarshalled into the version-1 shadow struct - for users and activations after
+   the "no limit" presets, and nothing else, were stored into it - and migrated; version 2: into the claims struct (an
+   account's key set made beforehand, its flat JetStream limits cleared exactly when tiers are present). *)
+Theorem C05_source_loaders_refuse_other_versions : forall (V : Type) (vnil : V) (data : string) (version : Z), version <> 1%Z -> version <> 2%Z ->
+  (forall unm2 unm1 migrate, V2.loadOperator V vnil unm2 unm1 migrate data version = refuse_version vnil) /\
+  (forall unm2into unm1 tiers clear_flat make_keys migrate, V2.loadAccount V vnil unm2into unm1 tiers clear_flat make_keys migrate data version = refuse_version vnil) /\
+  (forall unm2 unm1into migrate set_nolimits set_max, V2.loadUser V vnil unm2 unm1into migrate set_nolimits set_max data version = refuse_version vnil) /\
+  (forall unm2 unm1into migrate set_max set_payload, V2.loadActivation V vnil unm2 unm1into migrate set_max set_payload data version = refuse_version vnil).
+Proof. intros V vnil. exact (src_loaders_refuse_other_versions vnil). Qed.
+Print Assumptions C05_source_loaders_refuse_other_versions.
+
+Theorem C05_source_load_account : forall (V : Type) (vnil : V) unm2into unm1 (tiers : V -> list (string * V)) clear_flat make_keys migrate (data : string) (version : Z),
+  V2.loadAccount V vnil unm2into unm1 tiers clear_flat make_keys migrate data version
+  = if (version =? 1)%Z then after_unmarshal vnil (unm1 data) migrate
+    else if (version =? 2)%Z
+         then after_unmarshal vnil (unm2into (make_keys vnil) data) (fun v => (if (go_llen (tiers v) >? 0)%Z then clear_flat v else v, None))
+    else refuse_version vnil.
+Proof. intros V vnil. exact (src_load_account vnil). Qed.
+Print Assumptions C05_source_load_account.
+Theorem C05_source_load_operator : forall (V : Type) (vnil : V) unm2 unm1 migrate (data : string) (version : Z),
+  V2.loadOperator V vnil unm2 unm1 migrate data version
+  = if (version =? 1)%Z then after_unmarshal vnil (unm1 data) migrate
+    else if (version =? 2)%Z then after_unmarshal vnil (unm2 data) (fun v => (v, None)) else refuse_version vnil.
+Proof. intros V vnil. exact (src_load_operator vnil). Qed.
+Print Assumptions C05_source_load_operator.
+Theorem C05_source_load_user : forall (V : Type) (vnil : V) unm2 unm1into migrate set_nolimits (set_max : V -> Z -> V) (data : string) (version : Z),
+  V2.loadUser V vnil unm2 unm1into migrate set_nolimits set_max data version
+  = if (version =? 1)%Z then after_unmarshal vnil (unm1into (set_max (set_nolimits vnil) (-1)%Z) data) migrate
+    else if (version =? 2)%Z then after_unmarshal vnil (unm2 data) (fun v => (v, None)) else refuse_version vnil.
+Proof. intros V vnil. exact (src_load_user vnil). Qed.
+Print Assumptions C05_source_load_user.
+Theorem C05_source_load_activation : forall (V : Type) (vnil : V) unm2 unm1into migrate (set_max set_payload : V -> Z -> V) (data : string) (version : Z),
+  V2.loadActivation V vnil unm2 unm1into migrate set_max set_payload data version
+  = if (version =? 1)%Z then after_unmarshal vnil (unm1into (set_payload (set_max vnil (-1)%Z) (-1)%Z) data) migrate
+    else if (version =? 2)%Z then after_unmarshal vnil (unm2 data) (fun v => (v, None)) else refuse_version vnil.
+Proof. intros V vnil. exact (src_load_activation vnil). Qed.
+Print Assumptions C05_source_load_activation.
+Theorem C05_source_loaders_consult :
+  V2.loadOperator_consults = ["go_json_Unmarshal_OperatorClaims"; "go_json_Unmarshal_v1OperatorClaims"]%list /\
+  V2.loadAccount_consults = ["go_json_Unmarshal_into_AccountClaims"; "go_json_Unmarshal_v1AccountClaims"]%list /\
+  V2.loadUser_consults = ["go_json_Unmarshal_UserClaims"; "go_json_Unmarshal_into_v1UserClaims"]%list /\
+  V2.loadActivation_consults = ["go_json_Unmarshal_ActivationClaims"; "go_json_Unmarshal_into_v1ActivationClaims"]%list.
+Proof. repeat split; reflexivity. Qed.
+Print Assumptions C05_source_loaders_consult.
